@@ -265,11 +265,61 @@ def stored_and_evicted(ctx, rng):
     ctx.cov["stored_trees_checked_with_evicted_nodes"] = n
 
 
+def inplace_corruptions(ctx, rng):
+    """corruptions applied IN PLACE to the nodes of a tree that was built through the API (the objects keep their
+    allocated capacity, their reference counts, their place in the chain), not installed into fresh objects"""
+    import BTrees.check
+    import random as _r
+    n = 0
+    for it in range(ctx.n(60, 1500)):
+        kind = rng.choice(["BTree", "TreeSet"])
+        fn = rng.choice(ALL_FAMS)
+        impl = rng.choice(["C", "Py"])
+        ml, mi = rng.choice([(2, 2), (2, 3), (3, 3), (4, 4)])
+        env = TreeEnv(fn, kind, impl, "int" if fn[0] == "O" else None)
+        with env.sized(ml, mi):
+            t = env.new()
+            for k in rng.sample(range(60), rng.randint(6, 30)):
+                env.call(t, ("add", k) if env.setlike else ("set", k, k % 4))
+            leaves = env.leaf_objects(t)
+            if len(leaves) < 2:
+                continue
+            which = rng.randrange(len(leaves))
+            leaf = leaves[which]
+            st = leaf.__getstate__()
+            how = rng.choice(["emptied", "emptied", "last-key-dropped-to-front"])
+            if how == "emptied":
+                leaf.__setstate__(((),) + tuple(st[1:]))
+                must_reject = True
+            else:
+                items = st[0]
+                step = 1 if env.setlike else 2
+                if len(items) < 2 * step:
+                    continue
+                leaf.__setstate__((tuple(items[-step:]) + tuple(items[:-step]),) + tuple(st[1:]))     # keys out of order
+                must_reject = True
+            verdicts = {}
+            for name, f_ in (("_check", t._check), ("check", lambda: BTrees.check.check(t))):
+                try:
+                    f_(); verdicts[name] = "accepts"
+                except AssertionError:
+                    verdicts[name] = "rejects"
+                except Exception as e:  # noqa
+                    verdicts[name] = "raises-" + type(e).__name__
+            n += 1
+            ctx.count(("inplace", fn, kind, impl, how, which, ml, mi, it))
+            if must_reject and "rejects" not in verdicts.values():
+                ctx.oracle_failure("%s:undetected:in-place:%s" % (impl, how), "%s%s/%s sizes=(%d,%d): leaf #%d of %d %s in place through __setstate__: %r" % (
+                    fn, kind, impl, ml, mi, which, len(leaves), how, verdicts), {"family": fn, "kind": kind, "impl": impl, "sizes": [ml, mi], "how": how})
+    ctx.cov["in_place_corruptions"] = n
+
+
 def run(ctx):
     import BTrees.check
     import random as _r
     rng = ctx.rng
     stored_and_evicted(ctx, rng)
+    inplace_corruptions(ctx, rng)
     ntrees = ctx.n(60, 1500)
     percor = ctx.n(40, 200)
     terms, meta = [], []
@@ -282,7 +332,7 @@ def run(ctx):
         for e in envs.values():
             e.km.span = 3000
         with envs["C"].sized(ml, mi):
-            t = build_by_history(_r.Random(rng.random()), envs["C"], ml, mi)
+            t = build_by_history(_r.Random(rng.random()), envs["C"], ml, mi, centred=(it % 2 == 0))
             sh = shape_with_values(envs["C"], t)
         if sh == ("node", []):
             continue
